@@ -680,3 +680,5 @@ def run(ctx, rep):
     compose(ctx, rep, "C03", "C01.dec", r"^C03\.(wide|rfc)$")
     from rules import C07 as _C07
     compose(ctx, rep, "C07", "C01.conv", r"^C07\.endian$")
+    # the frame header writer puts the two optional trailers where the header reader (C03.rfc above) looks for them
+    compose(ctx, rep, "C02", "C01.hdr", r"^C02\.rfc$", key_only=r"FrameHeader::build|escape")
